@@ -1,9 +1,27 @@
 """C10 — []byte type variants behave like string variants (DESIGN.md §4 C10); TL1 part."""
 from checks import codec_common as cc
 
-LEVEL = "translation_validation"
-MODULES = []
-THEOREMS = []
+LEVEL = "proof"
+MODULES = ["TLVerif.Props.C10"]
+THEOREMS = ["TLVerif.Props.C10." + t for t in [
+    "readTL1M_map_eq", "dictNormalize_of_ascending", "dictStore_strict", "strict_le",
+    "bytes_variant_agrees_on_canonical", "bytes_variant_rewrites_equal",
+    "strict_accepts_example", "canonical_example", "variants_differ_on_duplicate_key", "variants_differ_on_unsorted_keys"]]
+
+
+def tie_mode(c, name, lines, impl, model, pre, mode):
+    """impl answers `codec.x1 …`, the model answers the same request through `readTL1M <mode>` (`codec.x1m <mode> …`)."""
+    from vlib.core import run_lines
+    a = run_lines(impl, lines, prefix=pre, mem_limit=c.impl_mem_limit, timeout=c.impl_timeout)
+    b = run_lines(model, ["codec.x1m " + mode + l[len("codec.x1"):] for l in lines], prefix=pre)
+    mode = mode.split("=")[0]
+    for l, x, y in zip(lines, a, b):
+        c.evaluations += 1
+        if x != y:
+            c.tie_failures.append({"tie": name, "line": l, "impl": x, "model": y})
+        k = "codec.x1m-" + mode + ":" + (" ".join(x.split(" ", 2)[:2]) if x.startswith("err ") else x.split(" ", 1)[0])
+        c.dist[k] = c.dist.get(k, 0) + 1
+    return list(zip(lines, a, b))
 
 
 # repaired in /repo by 49add7f1 (no longer a listed finding: reported as a violation if it returns): generated <Dict>BytesInternalReadTL2 reads each element into a local copy (`elem := (*vec)[i]`), so the slice-backed
@@ -14,7 +32,7 @@ BYTES_DICT_TL2_KEY = "bytes-dict-ReadTL2-reads-into-copy:qt_dict.qtpl BytesInter
 def run(c):
     known_lines = set()
     if MODULES:
-        c.lean(MODULES, THEOREMS)
+        c.lean(MODULES, THEOREMS, sources=["TLVerif.Codec.TL1", "TLVerif.Codec.BytesVariant"])
     # only schemas generated with --generateByteVersions
     model, hcodec, schemas = cc.prepare(c, [s for s in cc.corpus(c) if s.bytes_wl])
     rng = c.rng
@@ -22,6 +40,10 @@ def run(c):
         pre = [sc.desc_line()]
         lines = cc.x1_lines(sc, rng, 30 if c.thorough else 8, big=c.thorough, mutants=1)
         res_s = c.tie("string-variant:" + sc.sid, lines, sc.impl, model, prefix=pre)
+        # the []byte variant on ALL explored inputs (canonical or not) against the slice-dictionary model `readTL1M .slice`
+        res_sl = tie_mode(c, "slice-model:" + sc.sid, lines, sc.impl + ["-bytes"], model, pre, "slice=" + sc.bytes_wl)
+        ndiff = sum(1 for (_, a, _), (_, b, _) in zip(res_s, res_sl) if a != b)
+        c.count("non-canonical inputs on which the variants legitimately differ (duplicate/unsorted keys)", ndiff)
         # canonical inputs (dictionaries sorted, no duplicates) = what the string variant wrote
         canon = set()
         for l, a, _ in res_s:
@@ -36,6 +58,15 @@ def run(c):
         bad = [l for l, a, _ in res_s if a.startswith("err")]
         cl = sorted(canon) + bad
         res_str = c.tie("canon-string:" + sc.sid, cl, sc.impl, model, prefix=pre)
+        # hypothesis of `bytes_variant_agrees_on_canonical` is met by what the property calls canonical: the strict
+        # reader accepts every encoding written by the string variant (and rejects the rejected ones)
+        from vlib.core import run_lines as _rl
+        st = _rl(model, ["codec.x1m strict" + l[len("codec.x1"):] for l in cl], prefix=pre)
+        for l, (_, a, _), y in zip(cl, res_str, st):
+            c.evaluations += 1
+            if (a != y) if (a.startswith("ok ") or y.startswith("ok ")) else False:
+                c.oracle_fail(l, "strict (canonical-input) reader of the model and the string variant differ on an encoding the string variant wrote: string %s, strict %s" % (a[:100], y[:100]), l)
+        c.count("canonical inputs accepted by the strict reader", sum(1 for y in st if y.startswith("ok ")))
         res_byt = c.tie("canon-bytes:" + sc.sid, cl, sc.impl + ["-bytes"], model, prefix=pre)
         for (l, a, _), (_, b, _) in zip(res_str, res_byt):
             if a != b:
